@@ -12,7 +12,10 @@ EXTENDS Access, Json, IOUtils
 VARIABLE l
 Rec == ndJsonDeserialize(IOEnv.TRACE)
 
-Chk(prop, name, holds, e) == IF holds THEN TRUE ELSE PrintT(<<"VIOL", prop, name, l, "-", e.ev>>)
+\* NB: TLC's pretty-printer wraps a printed tuple at 80 columns and the check parses VIOL lines
+\* line by line, so the last field is the (short) caller class, not the long event name -- the
+\* line number l identifies the event.
+Chk(prop, name, holds, e) == IF holds THEN TRUE ELSE PrintT(<<"VIOL", prop, name, l, "-", e.cls>>)
 
 HasRow(e) == \E r \in Table[e.t] : r.hi = e.hi /\ r.lo = e.lo /\ r.var = e.var
 RowOf(e) == CHOOSE r \in Table[e.t] : r.hi = e.hi /\ r.lo = e.lo /\ r.var = e.var
@@ -87,6 +90,13 @@ UndefinedRejected(e, r) == r.kind = "undefined" => (Rejected(e) /\ ~e.changed)
 \* inside the VM (not in actor code), the message is rolled back = rejected, as on chain.
 NoPanic(e) == e.panicked => e.vmUnknownCallerArtefact
 
+\* Layer R (diagnostic only, never an alarm): the protocol-plumbing methods, which the table gives
+\* to exactly ONE singleton or actor type, are expected to discriminate at the caller check itself.
+\* One that validates with accept_any and still rejects every other class by some later test
+\* satisfies C11 -- but it is a drift from the specified shape worth a line in the output.
+PlumbingCheckedAtValidation(e) ==
+  (<<e.t, e.name>> \in SingletonInternal /\ Len(e.vals) > 0) => e.vals[1].kind # "any"
+
 TStep ==
   /\ l <= Len(Rec)
   /\ l' = l + 1
@@ -102,6 +112,8 @@ TStep ==
           /\ Chk("C11", "InternalNotForEvm", InternalNotForEvm(e), e)
           /\ Chk("C11", "UndefinedRejected", UndefinedRejected(e, r), e)
           /\ Chk("C11", "NoPanic", NoPanic(e), e)
+          /\ (IF PlumbingCheckedAtValidation(e) THEN TRUE
+              ELSE PrintT(<<"DRIFT", "C11", l, "PlumbingAcceptAny", e.cls>>))
 
 TrInit == l = 1
 TSpec == TrInit /\ [][TStep]_l
